@@ -12,7 +12,7 @@ import random
 from sim import core
 from sim import gen as G
 from sim.core import World
-from sim.model import Model, ModelError, Undefined, diff_feature, mf
+from sim.model import Model, ModelError, Undefined, diff_feature, mf, AUTO_RE
 from sim.node import NodeDied
 from sim.runner import viol
 
@@ -73,6 +73,13 @@ def gen(rng, tier):
             steps.append({"op": "update", "feats": batch(rng, rng.randint(1, 4), multi), "form": rng.choice(["path", "list", "gen", "iter1"])})
             if rng.random() < 0.4:
                 steps.append({"op": "delete", "pick": rng.random(), "form": rng.choice(["str", "feature", "features", "strs", "gen"])})
+            if rng.random() < 0.25:
+                steps.append({"op": "foreign", "pick": rng.random(), "what": rng.choice(["delete", "replace"])})
+            if rng.random() < 0.25:
+                # ids drawn from the handle's counters by merge(), stored by update(), must stay reserved in later sessions
+                steps.append({"op": "merge_update", "ftype": rng.choice(["exon", "gene", "mRNA", "CDS"])})
+                steps.append({"op": rng.choice(["restart", "reopen"])})
+                steps.append({"op": "update", "feats": batch(rng, rng.randint(2, 4), False), "form": rng.choice(["list", "gen"])})
     else:
         feats = []
         while not feats:
@@ -142,6 +149,57 @@ def run(case):
                     break
                 probes["lookup_delete_lookup"] = 1
                 continue
+            if k == "merge_update" and alive and spec in (None, "ID", ["ID", "Name"]):
+                mu = call(node, {"op": "update_merged", "h": "h", "ftype": st["ftype"]})
+                if not mu["ok"]:
+                    V.append(viol("C04.keys", "update(list(merge(...))) raised %s: %s" % (mu["exc"], mu["msg"]), kind="merge_update_failed", exc=mu["exc"]))
+                    break
+                if mu["merged"]:
+                    probes["merged_ids_stored_by_update"] = 1
+                    dd = call(node, {"op": "dump", "h": "h", "relations": False})
+                    for f in dd["dump"]["features"] if dd["ok"] else []:
+                        if f["id"] not in model.feats:
+                            # adopt what was stored; its key counts as handed out for its base
+                            model.insert(f["id"], mf(f["cols"], f["attrs"], f["extra"]))
+                            mm = AUTO_RE.match(f["id"])
+                            if mm:
+                                model.counters[mm.group(1)] = max(model.counters.get(mm.group(1), 0), int(mm.group(2)))
+                continue
+            if k == "foreign" and alive and model.order:
+                # look-up through this handle, a write by ANOTHER process, look-up through this handle again
+                key = model.order[int(st["pick"] * len(model.order)) % len(model.order)]
+                g = call(node, {"op": "get", "h": "h", "key": key})
+                other = w.node()
+                call(other, {"op": "open", "h": "x", "db": "a.db"})
+                if st["what"] == "delete":
+                    wr = call(other, {"op": "delete", "h": "x", "ids": [key], "form": "str", "kw": {"make_backup": False}})
+                    if wr["ok"]:
+                        model.delete([key])
+                else:
+                    nf = mf(["chrF", "foreign", model.feats[key]["cols"][2], 7, 77, ".", "+", "."], [["ID", [key]], ["note", ["replaced elsewhere"]]])
+                    wr = {"ok": False}
+                    if spec in (None, "ID", ["ID", "Name"]):
+                        wr = call(other, {"op": "update", "h": "x", "data": G.source_spec(None, [nf], form="list"),
+                                          "kw": {"merge_strategy": "replace", "make_backup": False}})
+                        if wr["ok"]:
+                            model.import_gff3([nf], strategy="replace", id_spec=spec)
+                            model.auto_issued = []
+                other.close()
+                if wr["ok"]:
+                    probes["write_by_other_process_between_lookups"] = 1
+                    g2 = call(node, {"op": "get", "h": "h", "key": key})
+                    if key not in model.feats:
+                        if g2["ok"] or g2["exc"] != "FeatureNotFoundError":
+                            V.append(viol("C04.lookup", "db[%r] still answers after another process deleted it" % key, kind="stale_lookup_other_process",
+                                          what="delete"))
+                            break
+                    else:
+                        df = diff_feature(model.feats[key], g2["f"]) if g2["ok"] else ["raised %s" % g2["exc"]]
+                        if df:
+                            V.append(viol("C04.lookup", "db[%r] after another process replaced it: %s" % (key, "; ".join(df[:2])),
+                                          kind="stale_lookup_other_process", what="replace"))
+                            break
+                continue
             if k not in ("create", "update"):
                 continue
             kw = {"merge_strategy": "create_unique"}
@@ -200,7 +258,7 @@ def run(case):
                 break
             out["digests"].add(core.digest(got))
         # look-ups
-        if alive and not V and not out.get("discarded") and node.alive:
+        if alive and not V and not out.get("discarded") and node.alive and model.order:
             keys = list(model.order)
             for key in qrng.sample(keys, min(len(keys), 5)):
                 g = call(node, {"op": "get", "h": "h", "key": key, "as_feature": qrng.random() < 0.3})
